@@ -2,6 +2,7 @@ package fhirpath
 
 import (
 	"errors"
+	"fmt"
 
 	dtpb "github.com/google/fhir/go/proto/google/fhir/proto/r4/core/datatypes_go_proto"
 	"github.com/verily-src/fhirpath-go/fhirpath/evalopts"
@@ -79,6 +80,11 @@ func MustCompile(expr string, opts ...CompileOption) *Expression {
 
 // Evaluate the expression, returning either a collection of elements, or error
 func (e *Expression) Evaluate(input []fhir.Resource, options ...EvaluateOption) (system.Collection, error) {
+	for i, resource := range input {
+		if resource == nil {
+			return nil, fmt.Errorf("input resource %d is nil", i)
+		}
+	}
 	config := &opts.EvaluateConfig{
 		Context: expr.InitializeContext(slices.MustConvert[any](input)),
 	}
